@@ -55,6 +55,8 @@ STATIC = [
   "what": "a num_buffers smaller than the writer's is accepted: later sections are read as relocation entries and the loader aborts on an assert (or crashes) instead of returning an error"},
  {"id": "KF-C08-01", "property": "C08", "status": "open", "signatures": ["history=define-string-then-save|*"],
   "what": "yr_rules_define_string_variable followed by yr_rules_save*: the external's relocatable slot points to strdup memory outside the arena and save aborts on assert(found) (arena.c) instead of writing the value"},
+ {"id": "KF-C10-01", "property": "C10", "status": "open", "signatures": ["history|*|*|file-truncated-during-evaluation"],
+  "what": "a memory fault on the scanned data during condition evaluation (mapped file truncated by another process: SIGBUS) leaves yr_execute_code through siglongjmp: its modules are not unloaded and its stack, object arena and iterator notebook are not freed. The scan returns ERROR_COULD_NOT_MAP_FILE, but the next scans on the same scanner get no import messages, see the previous file's module values (or crash in a module function that follows a pointer into the unmapped file), and the scanner leaks on destroy"},
  {"id": "KF-C13-01", "property": "C13", "status": "open", "signatures": ["interrupt|re-iteration|success-with-different-verdict"],
   "what": "not-ready reported during the re-iteration performed by rule evaluation (uintN(), hash.*, math.*, module loads) is not propagated: the scan returns success with possibly different verdicts (scanner.c never looks at iterator->last_error after yr_execute_code; docs/capi.rst tells iterator authors not to do this)"},
  {"id": "KF-C15-01", "property": "C15", "status": "open", "signatures": ["time|module-loop|data|gap-scales"],
@@ -84,6 +86,11 @@ FIXED = [
  ("C18", "23bf65b", "directory scans skipped every symbolic link whose target starts with `..` (two-byte readlink buffer), although the same path scanned as a single file follows the link"),
  ("C18", "2ace7fc", "warnings and console.log lines were printed outside the output lock: with several threads they landed inside another thread's rule line, between it and its string-match lines, and inside `error scanning <file>: <reason>` messages"),
  ("C16", "edd6bde", "yr_parser_emit_pushes_for_strings ignored a failed emit (relocation-node allocation or code-buffer growth) while compiling `N of ($a*)` / `them`: compilation reported success, the saved rules carried a raw heap address"),
+ ("C15", "415d3b7", "a loop over a range ending at INT64_MAX never terminated (next++ overflowed and next <= last stayed true): a scan without timeout hung, and `for all i in (MAX-1..MAX) : (i > 0)` was false"),
+ ("C16", "c9ddcf9", "a compiler external definition that failed half-way left a zeroed entry in the externals table, which is the end-of-table marker: every variable defined afterwards on the same compiler was invisible and the first scan aborted on assert(r1.o != NULL)"),
+ ("C20", "aac71a7", "yara ignored a rejected -d definition (unknown identifier, wrong type) unless it came last, and went on scanning with exit status 0 after `error: wrong syntax for -d`"),
+ ("C16", "dd732fd", "yr_object_set_string released the old value before allocating the new one: a scanner-level string definition that failed with ERROR_INSUFFICIENT_MEMORY left the variable undefined instead of unchanged"),
+ ("C20", "88be514", "yr_scanner_define_string_variable(scanner, id, NULL) crashed in strlen(NULL) where the compiler and rule-set levels return ERROR_INVALID_ARGUMENT"),
  ("C18", "cli-culprit-fix", "yara CLI printed `string \"$x\" in rule \"r\" caused could not open file` for an unreadable file after an earlier file on the same thread had hit a limit"),
 ]
 
